@@ -70,7 +70,10 @@ class Run:
         cl = self.clients[c]
         doc = self.auth_doc
         try:
-            for s, _ in cl.unconf:
+            # the steps travel as JSON text: the authority (and through its log every other client) works with
+            # the decoded steps
+            wire = [stepmod.via_json(self.schema, s) for s, _ in cl.unconf]
+            for s in wire:
                 r = s.apply(doc)
                 if r.failed is not None:
                     raise ValueError("authority: " + r.failed)
@@ -79,7 +82,7 @@ class Run:
             self._log("send", c, {"kind": "raise", "cls": type(ex).__name__, "msg": str(ex)[:200]})
             return False
         self.auth_doc = doc
-        self.auth_steps.extend(s for s, _ in cl.unconf)
+        self.auth_steps.extend(wire)
         cl.unconf = []
         cl.version = len(self.auth_steps)
         self.stats["sends"] += 1
